@@ -253,3 +253,68 @@ def resolve_locs(d: Dispatch):
     d.loc_ins = [m.get(k, d.invars[k - 2]) for k in (2, 3, 4, 5)]
     d.loc_table = table
     return ok
+
+
+# --------------------------------------------------------------------------- template comparison with slot diagnosis
+
+_LEAF_FIELDS = {ast.Name: ('id',), ast.Attribute: ('attr',), ast.Constant: ('value',), ast.arg: ('arg',), ast.keyword: ('arg',)}
+
+
+def tree_diff(a, b, path=''):
+    """Compare two ASTs. Returns ('same', []), ('leaf', [(path, a_leaf, b_leaf), ...]) when only identifiers /
+    constants / operators of the same kind differ, or ('shape', [where]) when the structure differs."""
+    if type(a) is not type(b):
+        # operators of the same family are leaf differences
+        for fam in ((ast.Add, ast.Sub, ast.Mult, ast.FloorDiv, ast.BitAnd, ast.BitOr, ast.BitXor, ast.LShift, ast.RShift),
+                    (ast.Eq, ast.NotEq, ast.Lt, ast.LtE, ast.Gt, ast.GtE, ast.Is, ast.IsNot, ast.In, ast.NotIn), (ast.And, ast.Or), (ast.Invert, ast.Not, ast.USub, ast.UAdd)):
+            if isinstance(a, fam) and isinstance(b, fam):
+                return 'leaf', [(path, type(a).__name__, type(b).__name__)]
+        return 'shape', [f'{path}: {type(a).__name__} vs {type(b).__name__}']
+    if isinstance(a, ast.AST):
+        diffs = []
+        kind = 'same'
+        for f in a._fields:
+            if f in ('ctx', 'type_comment', 'kind', 'lineno'):
+                continue
+            va, vb = getattr(a, f, None), getattr(b, f, None)
+            if f in _LEAF_FIELDS.get(type(a), ()):
+                if va != vb or type(va) is not type(vb):
+                    diffs.append((f'{path}.{f}', va, vb))
+                    kind = 'leaf' if kind != 'shape' else kind
+                continue
+            k, d = tree_diff(va, vb, f'{path}.{f}')
+            if k == 'shape':
+                return 'shape', d
+            if k == 'leaf':
+                kind = 'leaf'
+                diffs += d
+        return kind, diffs
+    if isinstance(a, list):
+        if len(a) != len(b):
+            return 'shape', [f'{path}: {len(a)} vs {len(b)} elements']
+        kind, diffs = 'same', []
+        for i, (x, y) in enumerate(zip(a, b)):
+            k, d = tree_diff(x, y, f'{path}[{i}]')
+            if k == 'shape':
+                return 'shape', d
+            if k == 'leaf':
+                kind = 'leaf'
+                diffs += d
+        return kind, diffs
+    if a != b:
+        return 'leaf', [(path, a, b)]
+    return 'same', []
+
+
+def parse_snippet(src, mode='exec'):
+    import textwrap
+    t = ast.parse(textwrap.dedent(src), mode='eval' if mode == 'eval' else 'exec')
+    return t.body if mode == 'eval' else t.body[0]
+
+
+def expect_value(actual_expr, template_src):
+    """('same'|'leaf'|'shape', human readable differences) of an expression against a template source."""
+    k, d = tree_diff(actual_expr, parse_snippet(template_src, 'eval'))
+    if k == 'leaf':
+        d = [f'{p}: found {x!r}, required {y!r}' for p, x, y in d]
+    return k, d
